@@ -654,6 +654,31 @@ func VH_C14_Grammar_Negations() {
 	vReach("grammar")
 }
 
+// ---------- captures inside parentheses between two operators ----------
+
+type vgCapParens struct {
+	A string `~( @~"a" )`
+	B string `( @( "a"? ) )*`
+	C string `~( @( "a"? ) ) @A`
+	D string `( @( ~"a" ) )+`
+	E string `( @( "a" | "b" ) )! ( @( "a"* ) )?`
+}
+
+func VH_C14_Grammar_CapParens() {
+	p, err := participle.Build[vgCapParens](participle.Lexer(vhLexDef))
+	vAssert(err == nil, "catalogue grammar must build")
+	ast := vhGrammarRoundTrip(p.String(), "VgCapParens")
+	want := vhKids("seq",
+		vhNeg(vhNeg(vhLit("a"))),
+		vhRep("*", vhRep("?", vhLit("a"))),
+		vhNeg(vhRep("?", vhLit("a"))), vhTok("a"),
+		vhRep("+", vhNeg(vhLit("a"))),
+		vhRep("!", vhKids("alt", vhLit("a"), vhLit("b"))), vhRep("?", vhRep("*", vhLit("a"))))
+	vAssert(vhSameShape(want, vhShapeOfExpr(ast.Productions[0].Expression)), "C14: ~ or a modifier of the grammar is applied to the wrong operand in the EBNF")
+	vObserve("ebnf", p.String())
+	vReach("grammar")
+}
+
 // ---------- anonymous struct productions whose types differ in punctuation only ----------
 
 type vgAnonTwins struct {
